@@ -79,6 +79,12 @@ Proof.
     + intros [[X|[X|X]] Y]; auto. exfalso. apply Y. auto.
 Qed.
 
+Lemma good_delitem : forall s i z, Inv c s -> good c s (set_delitem c s i z) true.
+Proof.
+  intros s i z I. unfold set_delitem. destruct (order_of s i); [|apply good_same; auto; discriminate].
+  destruct (py_idx _ z); [apply good_delslice; exact I|apply good_same; auto; discriminate].
+Qed.
+
 Lemma good_bind : forall s r f, good c s r false ->
   (forall s1, Inv c s1 -> good c s1 (f s1) false) -> good c s (bind r f) false.
 Proof.
@@ -124,25 +130,25 @@ Proof.
     subst st. unfold ord_ok, nw. simpl. destruct ordered; auto. split; [constructor|]. simpl. tauto.
 Qed.
 
-Lemma good_construct_one : forall s o ordered hk items, Inv c s ->
-  good c s (construct_one c s o ordered hk items) false.
+Lemma good_construct_one : forall s o ordered hk items fails, Inv c s ->
+  good c s (construct_one c s o ordered hk items fails) false.
 Proof.
-  intros s o ordered hk items I. unfold construct_one.
+  intros s o ordered hk items fails I. unfold construct_one.
   set (s0 := mkstate (sets s ++ [mkset o hk [] (if ordered then Some [] else None)]) (elems s) (gen s)).
   assert (I0 : Inv c s0) by (apply Inv_append_set; exact I).
   destruct (good_add_each items s0 (List.length (sets s)) I0) as [I1 [X1 _]].
   destruct (add_each c s0 (List.length (sets s)) items) as [s1 o1]. simpl in I1, X1.
+  destruct (Inv_clear c s1 (List.length (sets s)) I1) as [I2 _].
   destruct o1 as [|v|x].
-  - split; auto. split; [discriminate|intro; discriminate].
-  - split; auto. split; [discriminate|intro; discriminate].
-  - destruct (Inv_clear c s1 (List.length (sets s)) I1) as [I2 _].
-    split; [exact I2|]. split; [exact X1|intro; discriminate].
+  - destruct fails; (split; [assumption|]; split; [discriminate|intro; discriminate]).
+  - destruct fails; (split; [assumption|]; split; [discriminate|intro; discriminate]).
+  - split; [exact I2|]. split; [exact X1|intro; discriminate].
 Qed.
 
 Lemma good_construct : forall itemss s o ordered hk, Inv c s ->
   good c s (construct c s o ordered hk itemss) false.
 Proof.
-  induction itemss as [|items r IH]; intros s o ordered hk I; simpl.
+  induction itemss as [|[items fails] r IH]; intros s o ordered hk I; simpl.
   - split; auto. split; [discriminate|intro; discriminate].
   - apply good_bind; [apply good_construct_one; exact I|]. intros s1 I1. apply IH. exact I1.
 Qed.
